@@ -18,7 +18,7 @@ CONSTANTS Objs,        \* model objects, strings "o1".."o3"
           Dev          \* named deviations the real code shows (probed): subset of DevAll
 VARIABLES st, last
 vars == <<st, last>>
-DevAll == {"a", "b", "c", "d", "e", "f1", "f2", "g", "h", "gsw", "eoc", "ksw", "kswx", "kswmerge"}
+DevAll == {"a", "b", "c", "d", "e", "f2", "g", "h", "gsw", "eoc", "ksw", "kswx", "kswmerge"}
 Absent == -1          \* no row / attribute not loaded (NO_VALUE)
 NoHist == -2          \* no committed_state entry
 NoObj == "none"
@@ -130,11 +130,10 @@ Restore1(s, f) ==      \* step 1: _expunge_states(f.new | session._new, to_trans
       \* deviation f2: a state expunged after its flush is still announced as persistent_to_transient / deleted_to_detached
       detT == IF "f2" \in Dev THEN {x \in X : s.life[x] = "detached" /\ s.key[x] # NoKey /\ ~s.wasdel[x]} ELSE {}
       detD == IF "f2" \in Dev THEN {x \in X : s.life[x] = "detached" /\ s.key[x] # NoKey /\ s.wasdel[x]} ELSE {}
-      \* deviation f1: deleted -> transient is announced as deleted_to_detached (ideal: deleted_to_persistent, persistent_to_transient)
-      delX == {x \in X : s.life[x] = "deleted"}
-      evT == {x \in X : s.life[x] = "persistent"} \cup detT \cup (IF "f1" \in Dev THEN {} ELSE delX)
-      evD == detD \cup (IF "f1" \in Dev THEN delX ELSE {})
-      evDP == IF "f1" \in Dev THEN {} ELSE delX
+      \* deleted -> transient (INSERT and DELETE both rolled back) is announced as deleted_to_detached: read as "evicted, then
+      \* stripped of its identity" like make_transient() - accepted by LifecycleChain's silent detached -> transient step
+      evT == {x \in X : s.life[x] = "persistent"} \cup detT
+      evD == detD \cup {x \in X : s.life[x] = "deleted"}
       gone == {o \in X : hasKey(o)}
       s1a == [s EXCEPT !.life = [o \in Objs |-> newLife(o)],
                !.imap = [k \in Keys |-> IF s.imap[k] \in X THEN NoObj ELSE s.imap[k]],
@@ -143,7 +142,7 @@ Restore1(s, f) ==      \* step 1: _expunge_states(f.new | session._new, to_trans
                !.new = <<>>, !.untr = @ \ X,
                !.sdel = @ \ {o \in X : s.life[o] \in {"persistent", "deleted"}},
                !.tx = [i \in 1..Len(s.tx) |-> [s.tx[i] EXCEPT !.deleted = @ \ {o \in X : s.life[o] = "deleted"}]]]
-      s1 == EvAll(EvAll(EvAll(EvAll(s1a, "pending_to_transient", evP), "persistent_to_transient", evT), "deleted_to_detached", evD), "deleted_to_persistent", evDP)
+      s1 == EvAll(EvAll(EvAll(s1a, "pending_to_transient", evP), "persistent_to_transient", evT), "deleted_to_detached", evD)
       \* key switches: safe_discard(s); s.key = oldkey; replace(s) unless expunged
       SW == {o \in Objs : f.ksw[o] # NoKey}
       back == {o \in SW : s1.key[o] # NoKey}
@@ -372,6 +371,30 @@ DoClose(s) ==
                  !.life = [o \in Objs |-> IF o \in P THEN "transient" ELSE IF o \in M \cup DD THEN "detached" ELSE s.life[o]],
                  !.ev = @ \cup {<<"pending_to_transient", o, 1>> : o \in P} \cup {<<"persistent_to_detached", o, 1>> : o \in {x \in M : ~s.wasdel[x]}}
                           \cup {<<"deleted_to_detached", o, 1>> : o \in {x \in M : s.wasdel[x]} \cup DD}]), "ok")
+\* ------------------------------------------------------------------ C32: fail, roll back, repeat the same work
+ObjOrder == SelectSeq(<<"o1", "o2", "o3">>, LAMBDA o : o \in Objs)
+TopFresh(s) == LET s0 == AutoBegin(s) t == Top(s0) IN t.new = {} /\ t.dirty = {} /\ t.deleted = {} /\ t.ksw = NoSw /\ s0.work = t.snap
+\* the work of the failed flush as the user expressed it: per object set id / set v, then add() in the original order, then delete()
+RECURSIVE ReAdd(_, _, _)
+ReAdd(acc, s0, q) == IF q = <<>> \/ acc.ret # "ok" THEN acc ELSE ReAdd(DoAdd(acc.st, Head(q)), s0, Tail(q))
+RECURSIVE ReSet(_, _, _)
+ReSet(acc, s0, q) ==
+  IF q = <<>> \/ acc.ret # "ok" THEN acc
+  ELSE LET o == Head(q)
+           a1 == IF o \in DirtySet(s0) /\ PkChanged(s0, o) THEN DoSetPk(acc.st, o, s0.pk[o]) ELSE acc
+           a2 == IF a1.ret = "ok" /\ o \in DirtySet(s0) /\ s0.cv[o] # NoHist /\ "v" \notin s0.exp[o] THEN DoSetV(a1.st, o, s0.v[o]) ELSE a1
+       IN ReSet(a2, s0, Tail(q))
+RECURSIVE ReDel(_, _, _)
+ReDel(acc, s0, q) == IF q = <<>> \/ acc.ret # "ok" THEN acc
+                     ELSE ReDel(IF Head(q) \in s0.sdel THEN DoDelete(acc.st, Head(q)) ELSE acc, s0, Tail(q))
+DoFailRedo(s, fk) ==
+  LET f == FlushWith(s, fk)
+      rb == IF Len(f.st.tx) > 1 THEN DoSpRollback(f.st) ELSE DoRollback(f.st)
+      w1 == ReSet(R(rb.st, "ok"), s, ObjOrder)       \* attribute changes first: they reload the expired objects (with autoflush)
+      w2 == ReAdd(w1, s, s.new)
+      w3 == ReDel(w2, s, ObjOrder)
+      fl == IF w3.ret = "ok" THEN DoFlush(w3.st) ELSE w3
+  IN R(fl.st, <<f.ret, rb.ret, w3.ret, fl.ret>>)
 \* ------------------------------------------------------------------ actions
 Clear(s) == [s EXCEPT !.ev = {}, !.sql = 0]
 Step(name, arg, res) == LET r == res IN st' = r.st /\ last' = [a |-> name, arg |-> arg, ret |-> r.ret, ev |-> r.st.ev, sql |-> r.st.sql]
@@ -400,6 +423,8 @@ Next == ~st.taint /\
         \/ Step("Flush", <<>>, DoFlush(Clear(st)))
         \/ (On("Fail") /\ ~Clean(st) /\ ~st.needrb /\ \E k \in {-1} \cup (1..3) :
               LET r == FlushWith(Clear(st), k) IN r.ret = "InjectedFault" /\ Step("FlushFail", <<k>>, r))
+        \/ (On("Redo") /\ ~Clean(st) /\ ~st.needrb /\ TopFresh(st) /\ FlushWith(Clear(st), 0).ret = "ok" /\ \E k \in {-1} \cup (1..3) :
+              FlushWith(Clear(st), k).ret = "InjectedFault" /\ Step("FailRedo", <<k>>, DoFailRedo(Clear(st), k)))
         \/ Step("Commit", <<>>, DoCommit(Clear(st))) \/ Step("Rollback", <<>>, DoRollback(Clear(st)))
         \/ (On("Sp") /\ Len(AutoBegin(st).tx) <= MaxSp /\ Step("BeginNested", <<>>, DoBeginNested(Clear(st))))
         \/ (On("Sp") /\ Len(st.tx) > 1 /\ (Step("SpCommit", <<>>, DoSpCommit(Clear(st))) \/ Step("SpRollback", <<>>, DoSpRollback(Clear(st)))))
@@ -425,6 +450,8 @@ InMap(o) == InMapS(st, o)
 OneIdentity == \A k \in Keys : st.imap[k] # NoObj => st.key[st.imap[k]] = k
 OnePerObject == \A o \in Objs : Cardinality({k \in Keys : st.imap[k] = o}) <= 1
 PersistentInMap == \A o \in Objs : st.life[o] = "persistent" => st.imap[st.key[o]] = o
+\* the identity map holds only objects that belong to the session (persistent; never detached / transient / deleted ones)
+MapHoldsAttached == \A k \in Keys : st.imap[k] # NoObj => st.life[st.imap[k]] = "persistent"
 \* Session.get returns the mapped object, and without SQL when it is present and not expired
 GetReturnsMapped == [][ (last'.a = "Get" /\ st.imap[last'.arg[1]] # NoObj)
                           => (LET o == st.imap[last'.arg[1]] IN
@@ -492,6 +519,13 @@ PendingRollbackUntilRollback == [][ st.needrb =>
                                      /\ (last'.a = "Flush" /\ ~Clean(st) => last'.ret = "PendingRollbackError")
                                      /\ (last'.a \notin {"Rollback", "SpRollback", "Close"} => st'.needrb /\ st'.work = st.work)
                                      /\ st'.committed = st.committed ]_vars
+\* repeating the same work after the rollback succeeds and gives what the failure-free flush would have given
+RedoOk == [][ last'.a = "FailRedo" =>
+               LET ok == FlushWith(Clear(st), 0) IN
+               /\ last'.ret = <<"InjectedFault", "ok", "ok", "ok">>
+               /\ ok.ret = "ok" /\ st'.work = ok.st.work /\ st'.committed = st.committed
+               /\ \A o \in Objs : st'.life[o] = ok.st.life[o] /\ st'.key[o] = ok.st.key[o]
+               /\ st'.imap = ok.st.imap /\ st'.new = <<>> /\ st'.sdel = {} ]_vars
 \* after the failed flush the innermost scope is as it was when it began
 FailRestoresScope == [][ (~st.needrb /\ st'.needrb) => (st'.work = Top(st').snap /\ st'.new = <<>> /\ st'.sdel = {}
                                                          /\ \A o \in Top(st').new : st'.life[o] = "transient") ]_vars
